@@ -21,6 +21,7 @@ type cacheFunctions[MetadataT any] struct {
 	getCacheLen   func() int
 	getLock       func(key CacheKey) *sync.RWMutex
 	getMetadata   func(key CacheKey) *EntryMetadata[MetadataT] // Current metadata of the entry, nil if there is none. Does not count as an access.
+	getLimit      func() int64                                 // The limit the stores of this cache enforce, if it is not cache.max_cache_size alone (nil otherwise).
 }
 
 type cacheJanitor[MetadataT any] struct {
@@ -253,9 +254,15 @@ func (j *cacheJanitor[MetadataT]) evict(maxCacheBytes int64) {
 }
 
 func (j *cacheJanitor[MetadataT]) ensureCacheSize() {
+	// The cycle enforces the same limit as the stores: for the memory cache that is the smaller of
+	// the configured size and the memory budget (a budget lowered at run time was otherwise only
+	// acted on by the next store, never by a cycle).
 	maxCacheSize := j.cfg.Cache.MaxCacheSize.Read().Bytes()
+	if j.cacheFns.getLimit != nil {
+		maxCacheSize = min(maxCacheSize, j.cacheFns.getLimit())
+	}
 	startCacheSize := j.cacheFns.getCacheSize()
-	if startCacheSize < maxCacheSize {
+	if startCacheSize < maxCacheSize || startCacheSize == 0 {
 		return
 	}
 
